@@ -181,7 +181,7 @@ struct Engine {
   // shapes seen (classes / non-trivial rule)
   bool c_partial = false, c_eagain = false, c_before_enable = false, c_leftover_more = false, c_thr_held = false, c_sc = false,
        c_close_reported = false, c_close_pending_in = false, c_disc_in_cb = false, c_cb_send = false, c_disc = false, c_big = false,
-       c_multi_readv = false, c_err = false;
+       c_multi_readv = false, c_err = false, c_cross = false;
 
   Engine(const Scenario &sc, CaseInfo &ci, const char *subname) : s(sc), info(ci), sub(subname), loop(tbox::event::Loop::New()), rbuf(1u << 16) {
     if (!s.ops.empty() && s.ops[0].code == CFG) cfg = &s.ops[0];
@@ -257,7 +257,10 @@ struct Engine {
     for (size_t i = 0; i < c.acts.size();) if (c.acts[i].where == where) { todo.push_back(c.acts[i]); c.acts.erase(c.acts.begin() + i); } else ++i;
     for (auto &a : todo) {
       if (c.tbox_gone) break;
-      if (a.kind == 0) { do_send(c, a.n, true); c_cb_send = true; }
+      if (a.kind == 0) {     // server: half of these go to the NEXT connection (relay between clients, as a chat/proxy server does)
+        Conn &t = (conns.size() > 1 && (a.n & 1) == 0 && std::string(sub) == "server") ? *conns[(size_t)(c.idx + 1) % conns.size()] : c;
+        do_send(t, a.n, true); c_cb_send = true; if (&t != &c) c_cross = true;
+      }
       else if (a.kind == 1) { ep_disconnect(c, true); c_disc_in_cb = true; }
       else if (a.kind == 4) op_disable();
       else ep_shrink(c, a.kind - 2);
@@ -535,6 +538,7 @@ struct Engine {
     info.cls_if(c_disc, "tbox_disconnect");
     info.cls_if(c_disc_in_cb, "tbox_disconnect_in_callback");
     info.cls_if(c_cb_send, "send_from_callback");
+    info.cls_if(c_cross, "send_to_other_connection_from_callback");
     info.cls_if(c_big, "send_64k_or_more");
     info.cls_if(c_err, "error_callback");
     info.cls_if(conns.size() > 1, "several_connections");
